@@ -611,6 +611,13 @@ def run_case(case):
         return res
     kw = {} if d is None else {"decimal_digits": d}
     dd = d if d is not None else int(os.environ.get("NUMERIC_PRECISION", 4))
+    if case.get("after"):
+        # this process simplified a look-alike first (same shape, constants that differ from the fifth decimal on): its result is
+        # not judged here, and must not leak into the case below
+        try:
+            run_case({"entry": entry, "conds": case["after"], "digits": d})
+        except Exception:  # noqa
+            pass
     try:
         if entry == "expression":
             t = trees[0]
@@ -757,6 +764,24 @@ def cases_for(tier, seed):
             cases.append({"entry": "precondition", "conds": cs, "digits": 4 + (i % 3)})
             if neq and i % 20 >= 17:
                 cases.append({"entry": "precondition_or", "conds": cs, "digits": 4 + (i % 3)})
+    # look-alike pairs handled by one process one after the other: the same condition with constants that agree to four decimals
+    def near(tree, delta):
+        if isinstance(tree, str):
+            return repr(float(tree) + delta) if "." in tree else tree
+        return [tree[0]] + [near(t, delta) for t in tree[1:]]
+
+    twins = [
+        ["<=", ["+", ["*", ["f", "?x"], "0.99999"], ["g"]], ["load_limit", "?x"]],
+        [">=", ["-", ["*", "2.50001", ["*", ["f", "?x"], ["g"]]], ["*", "0.5", ["g"]]], "1.25"],
+        ["<", ["*", ["+", ["f", "?x"], "0.33333"], ["g"]], "7.00001"],
+    ]
+    for t in twins:
+        for entry in ("precondition", "inequality", "tree_method"):
+            for d in (5, 6):
+                cases.append({"entry": entry, "conds": [near(t, 0.00002)], "digits": d, "after": [t]})
+    cases.append({"entry": "expression", "conds": [near(twins[0][1], 0.00002)], "digits": 6, "after": [twins[0][1]]})
+    cases.append({"entry": "equality", "conds": [["=", near(twins[0][1], 0.00002), ["load_limit", "?x"]]], "digits": 6,
+                  "after": [["=", twins[0][1], ["load_limit", "?x"]]]})
     # default-digits path (the module-level default read from NUMERIC_PRECISION)
     for c, entry in fixed[:3] + fixed[4:6]:
         cases.append({"entry": entry, "conds": [c], "digits": None})
